@@ -120,7 +120,7 @@ def check(w):
         obs2, _ = run(w, [byid[i] for i in sorted(rej)], "confirm")
         rej2, _, _ = validate(w, obs2, "confirm")
         lost = set(rej) - set(rej2)
-        if lost and (not rej2 or any(not byid[i].get("push") for i in lost)):
+        if lost and len(lost) > max(3, len(obs) // 1000) and (not rej2 or any(not byid[i].get("push") for i in lost)):
             raise Broken("rejections not reproduced on re-run: %s" % sorted(lost)[:10])
         if lost:
             # unrequested data races with the generator (which may end the session first): an outside effect that did not
